@@ -82,23 +82,36 @@ func c08Linearizable(ops []c08Op, state []int, lifo bool) bool {
 	return false
 }
 
-func c08Run(lifo bool) {
+func c08Run(lifo bool) { c08RunCfg(lifo, false) }
+
+// deep: two goroutines with one operation each, prefill 0..1, but every schedule with <= 2 preemptions
+func c08RunCfg(lifo bool, deep bool) {
+	if deep {
+		vfSetDelayBound(2)
+	}
 	base := NewLinkedListQueue[int]()
 	q := NewConcurrentQueue[int](base)
 	st := NewConcurrentStack[int](base)
 	rec := &c08Rec{}
-	prefill := vfRange("prefill", 0, 2)
+	maxPrefill := 2
+	if deep {
+		maxPrefill = 1
+	}
+	prefill := vfRange("prefill", 0, maxPrefill)
 	var initial []int
 	for i := 0; i < prefill; i++ {
 		base.Offer(100 + i)
 		initial = append(initial, 100+i)
 	}
 	workers := 2 + vfTier()
+	if deep {
+		workers = 2
+	}
 	var wg sync.WaitGroup
 	nextVal := 1
 	for w := 0; w < workers; w++ {
 		nops := 1
-		if w == 0 || vfTier() > 0 {
+		if !deep && (w == 0 || vfTier() > 0) {
 			nops = vfRange("nops", 1, 2)
 		}
 		kinds := make([]int, nops)
@@ -155,11 +168,35 @@ func c08Run(lifo bool) {
 	}
 	vfAssert("linearizable", c08Linearizable(rec.ops, initial, lifo))
 	vfAssert("wrapped-structure-consistent", base.Count() == 0)
+	// the wrapped structure must come out of the concurrent phase intact: probe both ends of it directly
+	vfNoPanic("wrapped-structure-intact-nopanic", func() {
+		base.Offer(777)
+		v, err := base.Pop()
+		vfAssert("wrapped-structure-intact", err == nil && v == 777)
+		_, e1 := base.Shift()
+		_, e2 := base.Pop()
+		vfAssert("wrapped-structure-intact", e1 == ErrQueueIsEmpty && e2 == ErrStackIsEmpty)
+		base.Unshift(778)
+		v2, err2 := base.Shift()
+		vfAssert("wrapped-structure-intact", err2 == nil && v2 == 778 && base.Count() == 0)
+	})
 	vfReach("end")
 }
 
 func vh_C08_Queue() {
 	if !vfNoPanic("nopanic", func() { c08Run(false) }) {
+		return
+	}
+}
+
+func vh_C08_QueueDeep() {
+	if !vfNoPanic("nopanic", func() { c08RunCfg(false, true) }) {
+		return
+	}
+}
+
+func vh_C08_StackDeep() {
+	if !vfNoPanic("nopanic", func() { c08RunCfg(true, true) }) {
 		return
 	}
 }
@@ -174,8 +211,9 @@ func vh_C08_Stack() {
 // happens while the wrapper's lock is held exclusively, every read while it is held at least shared.
 func vh_C08_LockDiscipline() {
 	base := NewLinkedListQueue[int]()
-	base.Offer(1)
-	base.Offer(2)
+	for i := vfRange("prefill", 0, 2); i > 0; i-- {
+		base.Offer(i)
+	}
 	q := NewConcurrentQueue[int](base)
 	st := NewConcurrentStack[int](base)
 	op := vfChoose("op", 6)
